@@ -138,4 +138,11 @@ def run(tier, seed):
     if meta:
         res.sample({"rules": meta[0][1], "path": meta[0][2], "fp": meta[0][3], "verdict": meta[0][4], "delivered": meta[0][6]})
         res.sample({"rules": meta[-1][1], "path": meta[-1][2], "fp": meta[-1][3], "verdict": meta[-1][4], "delivered": meta[-1][6]})
+    # the fingerprint the rules are evaluated on, over real TLS (PyOpenSSL pump): look-alike certificates in sequence
+    import tlsextra
+    tmp2 = scratch_dir("nv-c05b-")
+    try:
+        tlsextra.fingerprint_collision_cases(res, tmp2, "C05")
+    finally:
+        shutil.rmtree(tmp2, ignore_errors=True)
     return res
